@@ -33,6 +33,8 @@ import (
 	"github.com/glyphlang/glyph/pkg/server"
 )
 
+const c06LockShrinksPerKind = 8
+
 const (
 	c06IPA = "10.0.0.1"
 	c06IPB = "10.0.0.2"
@@ -352,20 +354,55 @@ func c06LockKind(fail string) string {
 	return "other"
 }
 
+// c06ShrinkLock minimises a failing history: greedy deletion of events, then
+// replacement of each event by an earlier event of the alphabet with the same
+// kind and client, then ascending order inside runs of consecutive advances -
+// each step kept only if the history still fails in the same way.
 func c06ShrinkLock(h []int, fail string) ([]int, string) {
 	cur := append([]int{}, h...)
 	kind := c06LockKind(fail)
+	try := func(cand []int) bool {
+		if len(cand) == 0 {
+			return false
+		}
+		at, f, _ := c06RunLock(cand)
+		if f != "" && c06LockKind(f) == kind {
+			cur, fail = append([]int{}, cand[:at+1]...), f
+			return true
+		}
+		return false
+	}
 	for changed := true; changed; {
 		changed = false
 		for i := 0; i < len(cur); i++ {
-			cand := append(append([]int{}, cur[:i]...), cur[i+1:]...)
-			if len(cand) == 0 {
+			if try(append(append([]int{}, cur[:i]...), cur[i+1:]...)) {
+				changed = true
+				break
+			}
+		}
+	}
+	for i := 0; i < len(cur); i++ {
+		for e := 0; e < cur[i]; e++ {
+			a, b := c06Alphabet[e], c06Alphabet[cur[i]]
+			if a.Kind != b.Kind || a.From != b.From {
 				continue
 			}
-			at, f, _ := c06RunLock(cand)
-			if f != "" && c06LockKind(f) == kind {
-				cur, fail, changed = cand[:at+1], f, true
+			cand := append([]int{}, cur...)
+			cand[i] = e
+			if n := len(cur); try(cand) && len(cur) == n {
 				break
+			}
+		}
+	}
+	for swapped := true; swapped; {
+		swapped = false
+		for i := 0; i+1 < len(cur); i++ {
+			if c06Alphabet[cur[i]].Kind == "adv" && c06Alphabet[cur[i+1]].Kind == "adv" && cur[i] > cur[i+1] {
+				cand := append([]int{}, cur...)
+				cand[i], cand[i+1] = cand[i+1], cand[i]
+				if try(cand) {
+					swapped = true
+				}
 			}
 		}
 	}
@@ -380,6 +417,7 @@ func c06LockHistories(p vk.Params, res *vk.Result) {
 	defer c06SetEnv(envJWTSecret, c06EnvVal{true, c06Secret})()
 	res.Bounds["lock_rule_readings"] = len(c06Readings)
 	item := 0
+	shrunk := map[string]int{} // failing histories minimised so far, per failure kind (the rest is counted)
 	for _, ex := range c06Explorations {
 		depth := ex.Quick
 		if p.Thorough {
@@ -439,8 +477,10 @@ func c06LockHistories(p vk.Params, res *vk.Result) {
 				}
 				if fail != "" {
 					sig := fmt.Sprint(full[:at+1])
-					if !failedPrefix[sig] {
+					res.Count("lock_failing:"+c06LockKind(fail), 1)
+					if !failedPrefix[sig] && shrunk[c06LockKind(fail)] < c06LockShrinksPerKind {
 						failedPrefix[sig] = true
+						shrunk[c06LockKind(fail)]++
 						m, mf := c06ShrinkLock(full[:at+1], fail)
 						res.Violate(c06LockKey(m, mf), fmt.Sprintf("history %v: %s", c06Names(m), mf), c06Replay{Part: "lock", Events: c06Names(m)})
 					}
